@@ -10,8 +10,9 @@ for pending in self._pending_handlers.items():
 self._pending_handlers.clear()
 ```
 
-so an exception out of a handler leaves the method before `clear()`: the event stays in `_pending_handlers`.  `completeE` is that
-code with the handlers as a parameter that may raise.  No Mathlib. -/
+so an exception out of a handler left the method before `clear()`: the event stayed in `_pending_handlers` and was fired again with
+every later update (finding F-U2).  Repaired in /repo aa04e95 (D24b): the dict is detached before the loop.  `completeE` is the
+repaired method, `completeBeforeD24b` the old one, both with the handlers as a parameter that may raise.  No Mathlib. -/
 namespace Zc.Survive.Handlers
 open Zc
 
@@ -31,10 +32,16 @@ def fireAll (h : Handler) : List ((String × String) × Change) → Except PyExc
       | .error e => .error e
       | .ok cbs => .ok (cbOf kv :: cbs)
 
-/-- `async_update_records_complete` as the code is: `_pending_handlers` is cleared only when every handler returned -/
-def completeE (h : Handler) (b : Browser) : Except PyExc (Browser × List Callback) :=
+/-- `async_update_records_complete` as the code is since the D24b repair (aa04e95): `pending_handlers = self._pending_handlers;
+self._pending_handlers = {}` **before** the loop, so the browser's dict is empty whatever the handlers do; the second component is
+what the call returns or raises -/
+def completeE (h : Handler) (b : Browser) : Browser × Except PyExc (List Callback) :=
+  ({ b with pending := [] }, fireAll h b.pending)
+
+/-- the method before that repair: `_pending_handlers.clear()` only after every handler returned — an exception left the dict as it was -/
+def completeBeforeD24b (h : Handler) (b : Browser) : Browser × Except PyExc (List Callback) :=
   match fireAll h b.pending with
-  | .error e => .error e
-  | .ok cbs => .ok ({ b with pending := [] }, cbs)
+  | .error e => (b, .error e)
+  | .ok cbs => ({ b with pending := [] }, .ok cbs)
 
 end Zc.Survive.Handlers
